@@ -423,6 +423,8 @@ func (c *connection) connectLoop(prev *epoch, gen uint64, cancel *chan struct{},
 			hook()
 		}
 
+		vgate("loop.fence")
+
 		// F3: a Close (shutdown) or a fresh Open (reconnectGen advanced) during reconnect stops
 		// the loop before it spends work building a generation.
 		if c.shutdown.Load() || c.reconnectGen.Load() != gen {
